@@ -10,6 +10,8 @@ use std::task::Waker;
 
 pub const NONE: u32 = u32::MAX;
 pub const NPROP: usize = 21;
+/// `ChildRec::role_tag`: the key (slot) of this group member is not known to the harness
+pub const TAG_UNKNOWN_SLOT: u8 = 1;
 
 // ---------------------------------------------------------------------------------------
 // configuration of one work item's executions
@@ -458,6 +460,18 @@ impl World {
         }
     }
 
+    /// the slot of a group member is only known once `insert` has returned its key
+    pub fn set_slot(&mut self, child: u32, slot: u16) {
+        let owner = self.children[child as usize].owner;
+        self.children[child as usize].slot = slot;
+        if owner != u16::MAX {
+            let k = &mut self.combs[owner as usize];
+            if k.fired_slot.len() <= slot as usize {
+                k.fired_slot.resize(slot as usize + 1, false);
+            }
+        }
+    }
+
     pub fn detach(&mut self, child: u32) {
         let owner = self.children[child as usize].owner;
         self.children[child as usize].removed = true;
@@ -518,7 +532,7 @@ impl World {
     /// C01 invariant for combinator k (see DESIGN.md §6 C01).
     pub fn check_wake(&mut self, k: u16) {
         let c = &self.combs[k as usize];
-        if !c.alive || c.in_poll || c.last != Last::Pending || c.woken {
+        if !c.alive || c.in_poll || c.last != Last::Pending || c.woken || c.fam == Fam::Co {
             return;
         }
         for &ch in &c.children {
@@ -581,9 +595,10 @@ impl World {
                 let st = self.stack.clone();
                 self.violate(3, || format!("child {} (slot {}) polled outside a poll of its owner #{} (active: {:?})", id, slot, owner, st));
             }
+            let unknown_slot = self.children[id as usize].role_tag == TAG_UNKNOWN_SLOT;
             let (short, fam, home, selective, fired, alive, klast) = {
                 let c = &self.combs[owner as usize];
-                (c.short, c.fam, c.home, c.selective, c.fired_slot.get(slot as usize).copied().unwrap_or(false), c.alive, c.last)
+                (c.short, c.fam, c.home, c.selective && !unknown_slot, c.fired_slot.get(slot as usize).copied().unwrap_or(false), c.alive, c.last)
             };
             if short {
                 self.violate(home, || format!("{:?}#{}: child at slot {} polled after the deciding answer of this poll", fam, owner, slot));
@@ -610,8 +625,10 @@ impl World {
             if buffered != 0 && fam == Fam::Zip {
                 self.violate(9, || format!("Zip#{}: input {} polled while its item for the current row is still buffered", owner, slot));
             }
-            if let Some(f) = self.combs[owner as usize].fired_slot.get_mut(slot as usize) {
-                *f = false;
+            if !unknown_slot {
+                if let Some(f) = self.combs[owner as usize].fired_slot.get_mut(slot as usize) {
+                    *f = false;
+                }
             }
         }
         // waker registry
@@ -818,7 +835,12 @@ impl World {
             }
         }
         if owner != u16::MAX {
-            if let Some(f) = self.combs[owner as usize].fired_slot.get_mut(slot as usize) {
+            if self.children[child as usize].role_tag == TAG_UNKNOWN_SLOT {
+                // which key this member holds / held is unknown: be lenient for every slot
+                for f in self.combs[owner as usize].fired_slot.iter_mut() {
+                    *f = true;
+                }
+            } else if let Some(f) = self.combs[owner as usize].fired_slot.get_mut(slot as usize) {
                 *f = true;
             }
         }
